@@ -11,6 +11,26 @@ EXTENDS Cbor, Iana
 Err(e)  == [ok |-> FALSE, err |-> e]
 Good(x) == [ok |-> TRUE, x |-> x]
 TypeErr == Err("UnexpectedItem")
+(* UnexpectedItem carries two diagnostic strings (what was found, what was wanted); they are part of the crate's observable *)
+(* behaviour (Display: "got <got>, expected <want>") though no listed property pins them.  Unexp / WrongType build the     *)
+(* error WITH its diagnostic; DiagOf projects it (<<>> where a clause does not model it).                                  *)
+Unexp(got, want) == [ok |-> FALSE, err |-> "UnexpectedItem", got |-> got, want |-> want]
+GotOf(v) == CASE v.t = "int" -> "int" [] v.t = "bytes" -> "bstr" [] v.t = "float" -> "float" [] v.t = "text" -> "tstr"
+              [] v.t = "bool" -> "bool" [] v.t = "null" -> "nul" [] v.t = "tag" -> "tag" [] v.t = "array" -> "array"
+              [] v.t = "map" -> "map" [] OTHER -> "other"
+WrongType(v, want) == Unexp(GotOf(v), want)
+DiagOf(r) == IF ~r.ok /\ "got" \in DOMAIN r THEN <<r.got, r.want>> ELSE <<>>
+(* Display / Debug text of CoseError (src/common/mod.rs fmt_msg); "" where not modelled (DecodeFailed carries ciborium's text) *)
+ErrText(r) ==
+  IF r.ok THEN ""
+  ELSE CASE r.err = "DuplicateMapKey" -> "duplicate map key"
+         [] r.err = "EncodeFailed" -> "encode CBOR failure"
+         [] r.err = "ExtraneousData" -> "extraneous data in CBOR input"
+         [] r.err = "OutOfRangeIntegerValue" -> "out of range integer value"
+         [] r.err = "UnregisteredIanaValue" -> "expected recognized IANA value"
+         [] r.err = "UnregisteredIanaNonPrivateValue" -> "expected value in IANA or private use range"
+         [] r.err = "UnexpectedItem" /\ "got" \in DOMAIN r -> "got " \o r.got \o ", expected " \o r.want
+         [] OTHER -> ""
 
 Assigned(reg, nm) == [k |-> "assigned", reg |-> reg, name |-> nm]
 Priv(v)           == [k |-> "priv", v |-> v]
@@ -20,7 +40,7 @@ TextL(s)          == [k |-> "text", s |-> s]
 Label_FromCbor(v) ==
   IF v.t = "int" THEN (IF IntFitsI64(v) THEN Good(v) ELSE Err("OutOfRangeIntegerValue"))
   ELSE IF v.t = "text" THEN Good(v)
-  ELSE TypeErr
+  ELSE WrongType(v, "int/tstr")
 
 RegHit(reg, v) == IsSmall(v) /\ Registered(reg, SmallZ(v))
 
@@ -30,7 +50,7 @@ RegLabel_FromCbor(reg, v) ==
     ELSE IF RegHit(reg, v) THEN Good(Assigned(reg, NameOfZ(reg, SmallZ(v))))
     ELSE Err("UnregisteredIanaValue")
   ELSE IF v.t = "text" THEN Good(TextL(v.s))
-  ELSE TypeErr
+  ELSE WrongType(v, "int/tstr")
 
 RegPriv_FromCbor(reg, v) ==
   IF v.t = "int" THEN
@@ -39,7 +59,7 @@ RegPriv_FromCbor(reg, v) ==
     ELSE IF IsPrivateInt(v) THEN Good(Priv(v))
     ELSE Err("UnregisteredIanaNonPrivateValue")
   ELSE IF v.t = "text" THEN Good(TextL(v.s))
-  ELSE TypeErr
+  ELSE WrongType(v, "int/tstr")
 
 (* ---------- Design: to_cbor_value (total) ---------- *)
 RegLabel_ToCbor(l) ==
